@@ -83,6 +83,12 @@ orc_mips_reg_name (int reg)
 static void
 orc_mips_emit (OrcCompiler *compiler, orc_uint32 insn)
 {
+  /* the code buffer (orc_compiler_compile_program) holds 64 KiB */
+  if (compiler->codeptr - compiler->code > 65536 - 4) {
+    orc_compiler_error (compiler,
+        "program too large: the generated code does not fit in 65536 bytes");
+    return;
+  }
   ORC_WRITE_UINT32_LE (compiler->codeptr, insn);
   compiler->codeptr+=4;
 }
@@ -113,6 +119,11 @@ void
 orc_mips_do_fixups (OrcCompiler *compiler)
 {
   int i;
+
+  /* after an error (code buffer or fixup table full) the recorded positions
+   * need not lie inside the code buffer any more */
+  if (compiler->error) return;
+
   for(i=0;i<compiler->n_fixups;i++){
     /* Type 0 of fixup is a branch label that could not be resolved at first
      * pass. We compute the offset, which should be the 16 least significant
